@@ -36,6 +36,6 @@ IterText == CASE iter = "none" -> "" [] iter = "one" -> " for i in 0..3" [] iter
               [] iter = "edgew" -> " for (u, v, i) in edges(G)" [] iter = "zip" -> " for (i, j) in zip(S, T)"
 Text == "max sum(i in 0..3, j in 0..2) { p_i_j + 2 * q_i_j }\ns.t.\n    " \o NameText \o BodyText \o IterText
         \o "\n    sum(i in 0..3, j in 0..2) { p_i_j + q_i_j } <= 4\n    sum((i) in enumerate(S)) { p_i_0 } + sum((u, v, i) in edges(G)) { q_i_1 } <= 3"
-        \o "\nwhere\n    let S = [0, 2, 3]\n    let T = [1, 0, 1]\n    let G = Graph {\n        A -> [B: 1, C: 2],\n        B -> [C: 3],\n        C\n    }\ndefine\n    p_i_j, q_i_j as Boolean for i in 0..3, j in 0..2"
+        \o "\nwhere\n    let S = [0, 2, 1]\n    let T = [1, 0, 1]\n    let G = Graph {\n        A -> [B: 1, C: 2],\n        B -> [C: 0],\n        C\n    }\ndefine\n    p_i_j, q_i_j as Boolean for i in 0..3, j in 0..2"
 Emit == phase = "done" => PrintT(<<"CASE", ToJson([text |-> Text])>>)
 =============================================================================
